@@ -611,3 +611,722 @@ Example ex_reject :
   let s := fold_left (step_st c) [Poll 0%nat; Poll 1%nat; Advance 10] (init c) in
   cs s 1%nat = Waiting (Some 10) /\ ~ In 1%nat (granted s) /\ r (snd (poll c s 1%nat)) = 3 /\ inflight s = 1%nat.
 Proof. cbn. repeat split; try reflexivity. intros []. Qed.
+
+(* ---------- two more invariants ---------- *)
+Definition Wk (s : st) : Prop := forall j, In j (granted s) -> woken s j = true.
+Definition En (s : st) : Prop := forall j, cs s j = Running -> entered s j = true.
+
+Lemma release_Wk s : Wk s -> Wk (release s).
+Proof.
+  intros H. unfold release. destruct (queue s) as [|h q]; intros j; cbn.
+  - apply H.
+  - rewrite in_app_iff. intros [Hj|[->|[]]].
+    + destruct (Nat.eq_dec j h) as [->|Hne]; [apply upd_same|rewrite upd_other by exact Hne; apply H; exact Hj].
+    + apply upd_same.
+Qed.
+
+Lemma poll_running_Wk s i b z : Wk s -> Wk (fst (poll_running s i b z)).
+Proof.
+  intros H. unfold poll_running. destruct (gate s i); cbn [fst]; [|exact H].
+  apply release_Wk. exact H.
+Qed.
+
+Lemma start_Wk s i : Wk s -> Wk (fst (start s i)).
+Proof. intros H. unfold start. apply poll_running_Wk. exact H. Qed.
+
+Lemma not_granted_unless_waiting c s i :
+  Inv c s -> ~ is_waiting (cs s i) -> ~ In i (granted s).
+Proof. intros [_ HC] Hn Hi. apply Hn. apply (HC i). right. exact Hi. Qed.
+
+Lemma Wk_clear s i s2 : Wk s -> ~ In i (granted s) ->
+  granted s2 = granted s -> woken s2 = upd (woken s) i false -> Wk s2.
+Proof.
+  intros H Hi Hg Hw j Hj. rewrite Hg in Hj. rewrite Hw.
+  rewrite upd_other; [apply H; exact Hj|]. intros ->. contradiction.
+Qed.
+
+Lemma poll_Wk c s i : Inv c s -> Wk s -> Wk (fst (poll c s i)).
+Proof.
+  intros HI HW. unfold poll.
+  set (s' := mkSt (now s) (free s) (queue s) (granted s) (running s) (cs s) (gate s)
+                  (upd (woken s) i false) (entered s) _).
+  change (cs s' i) with (cs s i).
+  destruct (cs s i) as [|dl| | |] eqn:Ecs.
+  - assert (HW' : Wk s').
+    { apply (Wk_clear s i); [exact HW| |reflexivity|reflexivity]. apply (not_granted_unless_waiting c); [exact HI|].
+      rewrite Ecs. intros [dl H]; discriminate. }
+    change (free s') with (free s). destruct (free s) as [|f].
+    + destruct (max_wait c) as [w|]; [destruct (w <=? 0)|]; cbn [fst]; exact HW'.
+    + apply start_Wk. exact HW'.
+  - change (granted s') with (granted s). destruct (mem i (granted s)) eqn:Emem.
+    + apply start_Wk. intros j. cbn. rewrite in_remove_id. intros [Hj Hne].
+      rewrite upd_other by exact Hne. apply HW. exact Hj.
+    + apply mem_false in Emem. assert (HW' : Wk s') by (apply (Wk_clear s i); [exact HW|exact Emem|reflexivity|reflexivity]).
+      destruct dl as [d|]; [destruct (d <=? now s')|]; cbn [fst]; exact HW'.
+  - apply poll_running_Wk. apply (Wk_clear s i); [exact HW| |reflexivity|reflexivity].
+    apply (not_granted_unless_waiting c); [exact HI|]. rewrite Ecs. intros [dl H]; discriminate.
+  - cbn [fst]. apply (Wk_clear s i); [exact HW| |reflexivity|reflexivity].
+    apply (not_granted_unless_waiting c); [exact HI|]. rewrite Ecs. intros [dl H]; discriminate.
+  - cbn [fst]. apply (Wk_clear s i); [exact HW| |reflexivity|reflexivity].
+    apply (not_granted_unless_waiting c); [exact HI|]. rewrite Ecs. intros [dl H]; discriminate.
+Qed.
+
+Lemma drop_Wk c s i : Inv c s -> Wk s -> Wk (drop s i).
+Proof.
+  intros HI HW. unfold drop.
+  set (s' := mkSt (now s) (free s) (queue s) (granted s) (running s) (cs s) (gate s)
+                  (upd (woken s) i false) (entered s) (arrival s)).
+  change (cs s' i) with (cs s i).
+  assert (Hng : ~ is_waiting (cs s i) -> Wk s').
+  { intros Hn. apply (Wk_clear s i); [exact HW| |reflexivity|reflexivity]. apply (not_granted_unless_waiting c); assumption. }
+  destruct (cs s i) as [|dl| | |] eqn:Ecs.
+  - apply Hng. intros [dl H]; discriminate.
+  - change (granted s') with (granted s). destruct (mem i (granted s)) eqn:Emem.
+    + apply release_Wk. intros j. cbn. rewrite in_remove_id. intros [Hj Hne].
+      rewrite upd_other by exact Hne. apply HW. exact Hj.
+    + apply mem_false in Emem. apply (Wk_clear s i); [exact HW|exact Emem|reflexivity|reflexivity].
+  - apply release_Wk. apply Hng. intros [dl H]; discriminate.
+  - apply Hng. intros [dl H]; discriminate.
+  - apply Hng. intros [dl H]; discriminate.
+Qed.
+
+Lemma advance_Wk s d : Wk s -> Wk (advance s d).
+Proof. intros H j Hj. cbn. rewrite (H j Hj). reflexivity. Qed.
+
+Lemma complete_Wk s i o : Wk s -> Wk (complete s i o).
+Proof.
+  intros H. unfold complete. destruct (gate s i); [exact H|]. intros j Hj. cbn in *.
+  destruct (cs s i); try (apply H; exact Hj).
+  destruct (Nat.eq_dec j i) as [->|Hne]; [apply upd_same|rewrite upd_other by exact Hne; apply H; exact Hj].
+Qed.
+
+(* En *)
+Lemma release_En s : En s -> En (release s).
+Proof. intros H j. rewrite release_cs, release_entered. apply H. Qed.
+
+Lemma poll_running_En s i b z : En s -> En (fst (poll_running s i b z)).
+Proof.
+  intros H. unfold poll_running. destruct (gate s i); cbn [fst]; [|exact H].
+  apply release_En. intros j. cbn. destruct (Nat.eq_dec j i) as [->|Hne].
+  - rewrite upd_same. discriminate.
+  - rewrite upd_other by exact Hne. apply H.
+Qed.
+
+Lemma start_En s i : En s -> En (fst (start s i)).
+Proof.
+  intros H. unfold start. apply poll_running_En. intros j. cbn.
+  destruct (Nat.eq_dec j i) as [->|Hne].
+  - rewrite !upd_same. reflexivity.
+  - rewrite !upd_other by exact Hne. apply H.
+Qed.
+
+Lemma En_upd s s2 i x :
+  x <> Running -> cs s2 = upd (cs s) i x -> entered s2 = entered s -> En s -> En s2.
+Proof.
+  intros Hx Hc He H j. rewrite Hc, He. destruct (Nat.eq_dec j i) as [->|Hne].
+  - rewrite upd_same. intros; contradiction.
+  - rewrite upd_other by exact Hne. apply H.
+Qed.
+
+Lemma En_same s s2 : cs s2 = cs s -> entered s2 = entered s -> En s -> En s2.
+Proof. intros Hc He H j. rewrite Hc, He. apply H. Qed.
+
+Lemma poll_En c s i : En s -> En (fst (poll c s i)).
+Proof.
+  intros H. unfold poll.
+  set (s' := mkSt (now s) (free s) (queue s) (granted s) (running s) (cs s) (gate s)
+                  (upd (woken s) i false) (entered s) _).
+  assert (H' : En s') by exact H.
+  change (cs s' i) with (cs s i).
+  destruct (cs s i) as [|dl| | |] eqn:Ecs.
+  - change (free s') with (free s). destruct (free s) as [|f].
+    + destruct (max_wait c) as [w|]; [destruct (w <=? 0)|]; cbn [fst];
+        (eapply En_upd; [| reflexivity | reflexivity | exact H']); discriminate.
+    + apply start_En. exact H'.
+  - change (granted s') with (granted s). destruct (mem i (granted s)).
+    + apply start_En. exact H'.
+    + destruct dl as [d|]; [destruct (d <=? now s')|]; cbn [fst]; try exact H'.
+      eapply En_upd; [| reflexivity | reflexivity | exact H']; discriminate.
+  - apply poll_running_En. exact H'.
+  - exact H'.
+  - exact H'.
+Qed.
+
+Lemma drop_En s i : En s -> En (drop s i).
+Proof.
+  intros H. unfold drop.
+  set (s' := mkSt (now s) (free s) (queue s) (granted s) (running s) (cs s) (gate s)
+                  (upd (woken s) i false) (entered s) (arrival s)).
+  assert (H' : En s') by exact H.
+  change (cs s' i) with (cs s i).
+  destruct (cs s i) as [|dl| | |] eqn:Ecs; try exact H'.
+  - eapply En_upd; [| reflexivity | reflexivity | exact H']; discriminate.
+  - change (granted s') with (granted s). destruct (mem i (granted s)); [apply release_En|];
+      (eapply En_upd; [| reflexivity | reflexivity | exact H']); discriminate.
+  - apply release_En. eapply En_upd; [| reflexivity | reflexivity | exact H']; discriminate.
+Qed.
+
+Lemma advance_En s d : En s -> En (advance s d).
+Proof. intros H. exact H. Qed.
+
+Lemma complete_En s i o : En s -> En (complete s i o).
+Proof. intros H. unfold complete. destruct (gate s i); exact H. Qed.
+
+Definition Inv2 (c : cfg) (s : st) : Prop := Inv c s /\ Wk s /\ En s.
+
+Lemma inv2_init c : Inv2 c (init c).
+Proof.
+  split; [apply inv_init|]. split.
+  - intros j [].
+  - intros j H. discriminate.
+Qed.
+
+Lemma step_inv2 c s e : Inv2 c s -> Inv2 c (step_st c s e).
+Proof.
+  intros [HI [HW HE]]. split; [apply step_inv; exact HI|].
+  unfold step_st, step. destruct e; cbn [fst]; split.
+  - apply (poll_Wk c); assumption.
+  - apply poll_En; assumption.
+  - apply (drop_Wk c); assumption.
+  - apply drop_En; assumption.
+  - apply advance_Wk; assumption.
+  - apply advance_En; assumption.
+  - apply complete_Wk; assumption.
+  - apply complete_En; assumption.
+Qed.
+
+Lemma reach_Inv2 c evs : Forall (Inv2 c) (states (step_st c) (init c) evs).
+Proof. apply reach_inv; [apply inv2_init|intros s e; apply step_inv2]. Qed.
+
+(* ---------- observation histories ---------- *)
+Fixpoint run_obs (c : cfg) (s : st) (evs : list ev) : list obs :=
+  match evs with [] => [] | e :: t => snd (step c s e) :: run_obs c (step_st c s e) t end.
+
+(* the poll returned the inner call's result: Ok, Err(Inner), or it panicked *)
+Definition ended (o : obs) : bool := (r o =? 1) || (r o =? 2) || (r o =? 5).
+
+(* the requests inside the inner service according to the observations alone: entered
+   (an inner call was started for them) and not yet finished / failed / panicked / dropped *)
+Definition inside_step (acc : list nat) (eo : ev * obs) : list nat :=
+  match fst eo with
+  | Poll i => let acc1 := if started (snd eo) then i :: acc else acc in
+              if ended (snd eo) then remove_id i acc1 else acc1
+  | Drop i => remove_id i acc
+  | _ => acc
+  end.
+
+Definition history (c : cfg) (evs : list ev) : list (ev * obs) :=
+  combine evs (run_obs c (init c) evs).
+
+Definition inside (h : list (ev * obs)) : list nat := fold_left inside_step h [].
+
+Lemma poll_running_inside s i b z :
+  running (fst (poll_running s i b z)) =
+    (if ended (snd (poll_running s i b z)) then remove_id i (running s) else running s) /\
+  started (snd (poll_running s i b z)) = b.
+Proof.
+  unfold poll_running. destruct (gate s i) as [[]|]; cbn; rewrite ?release_running; cbn; split; reflexivity.
+Qed.
+
+Lemma step_inside c s e :
+  Inv c s -> running (step_st c s e) = inside_step (running s) (e, snd (step c s e)).
+Proof.
+  intros [HG HC]. unfold step_st, step, inside_step. destruct e as [i|i|d|i o]; cbn [fst snd].
+  - destruct (HC i) as [Hwi Hri _ _ _]. unfold poll. cbn.
+    destruct (cs s i) as [|dl| | |] eqn:Ecs.
+    + destruct (free s) as [|f].
+      * destruct (max_wait c) as [w|]; [destruct (w <=? 0)|]; reflexivity.
+      * unfold start. match goal with |- context [poll_running ?s1 i true ?z] =>
+          destruct (poll_running_inside s1 i true z) as [H1 H2]; rewrite H1, H2 end.
+        reflexivity.
+    + destruct (mem i (granted s)).
+      * unfold start. match goal with |- context [poll_running ?s1 i true ?z] =>
+          destruct (poll_running_inside s1 i true z) as [H1 H2]; rewrite H1, H2 end.
+        reflexivity.
+      * destruct dl as [d|]; [destruct (d <=? now s)|]; reflexivity.
+    + match goal with |- context [poll_running ?s1 i false ?z] =>
+        destruct (poll_running_inside s1 i false z) as [H1 H2]; rewrite H1, H2 end.
+      reflexivity.
+    + reflexivity.
+    + reflexivity.
+  - destruct (HC i) as [Hwi Hri _ _ _]. unfold drop. cbn.
+    assert (Hn : cs s i <> Running -> running s = remove_id i (running s)).
+    { intros H. symmetry. apply remove_id_notin. intros Hin. apply H. apply Hri. exact Hin. }
+    destruct (cs s i) as [|dl| | |] eqn:Ecs.
+    + cbn. apply Hn. discriminate.
+    + destruct (mem i (granted s)); rewrite ?release_running; cbn; apply Hn; discriminate.
+    + rewrite release_running. reflexivity.
+    + cbn. apply Hn. discriminate.
+    + cbn. apply Hn. discriminate.
+  - reflexivity.
+  - unfold complete. destruct (gate s i); reflexivity.
+Qed.
+
+Lemma running_is_history_from c evs : forall s, Inv c s ->
+  running (fold_left (step_st c) evs s) =
+  fold_left inside_step (combine evs (run_obs c s evs)) (running s).
+Proof.
+  induction evs as [|e t IH]; intros s HI; cbn [fold_left run_obs combine]; [reflexivity|].
+  rewrite IH by (apply step_inv; exact HI). rewrite (step_inside c s e HI). reflexivity.
+Qed.
+
+(* C01, against the observation history: the requests that have entered the inner service and
+   have not yet finished, failed, panicked or been dropped -- computed from the observations of
+   the run alone -- are exactly the model's running list, after every history *)
+Lemma running_is_history c evs :
+  running (fold_left (step_st c) evs (init c)) = inside (history c evs).
+Proof. apply (running_is_history_from c evs (init c)). apply inv_init. Qed.
+
+Lemma history_count_le_cap c evs :
+  (length (inside (history c evs)) <= cap c)%nat /\ NoDup (inside (history c evs)).
+Proof.
+  rewrite <- running_is_history.
+  assert (HI : Inv c (fold_left (step_st c) evs (init c)))
+    by (apply fold_left_inv; [apply inv_init|intros; apply step_inv; assumption]).
+  destruct HI as [[Hc _ _ Hr _ _] _]. split; [lia|exact Hr].
+Qed.
+
+(* ---------- the bound inside a poll and on the trace ---------- *)
+Lemma seen_le_cap c s i : Inv c s -> 0 <= seen (snd (poll c s i)) <= Z.of_nat (cap c).
+Proof.
+  intros [HG HC]. destruct HG as [Hc Hq Hg Hr Hd Hf]. destruct (HC i) as [Hwi Hri _ _ _].
+  unfold poll. cbn. destruct (cs s i) as [|dl| | |] eqn:E.
+  - destruct (free s) as [|f] eqn:Ef.
+    + destruct (max_wait c) as [w|]; [destruct (w <=? 0)|]; cbn; lia.
+    + unfold start, poll_running. cbn. destruct (gate s i); cbn; lia.
+  - destruct (mem i (granted s)) eqn:Em.
+    + apply mem_In in Em. pose proof (length_remove_id i (granted s) Hg Em).
+      unfold start, poll_running. cbn. destruct (gate s i); cbn; lia.
+    + destruct dl as [d|]; [destruct (d <=? now s)|]; cbn; lia.
+  - unfold poll_running. cbn. destruct (gate s i); cbn; lia.
+  - cbn. lia.
+  - cbn. lia.
+Qed.
+
+(* the in-flight count the inner service sees when a call is started counts that call:
+   it is the number of running callers of the intermediate state inside the poll *)
+Lemma seen_counts_the_new_call c s i :
+  Inv c s -> started (snd (poll c s i)) = true ->
+  seen (snd (poll c s i)) = Z.of_nat (S (length (running s))).
+Proof.
+  intros _. unfold poll. cbn. destruct (cs s i) as [|dl| | |].
+  - destruct (free s) as [|f].
+    + destruct (max_wait c) as [w|]; [destruct (w <=? 0)|]; cbn; discriminate.
+    + unfold start, poll_running. cbn. destruct (gate s i); cbn; reflexivity.
+  - destruct (mem i (granted s)).
+    + unfold start, poll_running. cbn. destruct (gate s i); cbn; reflexivity.
+    + destruct dl as [d|]; [destruct (d <=? now s)|]; cbn; discriminate.
+  - unfold poll_running. cbn. destruct (gate s i); cbn; discriminate.
+  - cbn. discriminate.
+  - cbn. discriminate.
+Qed.
+
+(* column k of a trace of 6-integer rows *)
+Fixpoint col6 (k : nat) (t : list Z) : list Z :=
+  match t with
+  | a :: b :: c :: d :: e :: f :: rest => nth k [a; b; c; d; e; f] 0 :: col6 k rest
+  | _ => []
+  end.
+
+Lemma run_evs_cols c total evs : forall s, Inv c s ->
+  Forall (fun x => 0 <= x <= Z.of_nat (cap c)) (col6 4 (run_evs c total s evs)) /\
+  Forall (fun x => 0 <= x <= Z.of_nat (cap c)) (col6 2 (run_evs c total s evs)).
+Proof.
+  induction evs as [|e t IH]; intros s HI; cbn [run_evs].
+  - split; constructor.
+  - destruct (step c s e) as [s' o] eqn:Es.
+    assert (Hs' : s' = step_st c s e) by (unfold step_st; rewrite Es; reflexivity).
+    assert (HI' : Inv c s') by (rewrite Hs'; apply step_inv; exact HI).
+    destruct (IH s' HI') as [I1 I2]. cbn [app col6 nth]. split; constructor; try assumption.
+    + destruct HI' as [[Hc _ _ _ _ _] _]. lia.
+    + assert (Ho : o = snd (step c s e)) by (rewrite Es; reflexivity). subst o.
+      destruct e; cbn; try lia. apply seen_le_cap. exact HI.
+Qed.
+
+(* the statement about run_script itself (what bin/check compares with the implementation):
+   in every row of the trace of every script both the in-flight count after the event and the
+   count the inner service saw when a call was started inside the poll are at most cap *)
+Lemma trace_inflight_and_seen_le_cap sc :
+  let capz := Z.of_nat (cap (cfg_of sc)) in
+  Forall (fun x => 0 <= x <= capz) (col6 4 (run_script sc)) /\
+  Forall (fun x => 0 <= x <= capz) (col6 2 (run_script sc)).
+Proof. cbv zeta. unfold run_script. apply run_evs_cols. apply inv_init. Qed.
+
+(* ---------- C07: more about rejections and grants ---------- *)
+Lemma zero_wait_rejects c s i w :
+  cs s i = Created -> free s = 0%nat -> max_wait c = Some w -> w <= 0 ->
+  r (snd (poll c s i)) = 3 /\ started (snd (poll c s i)) = false /\ now (fst (poll c s i)) = now s.
+Proof.
+  intros H1 H2 H3 H4. unfold poll. cbn. rewrite H1, H2, H3. apply Z.leb_le in H4. rewrite H4.
+  cbn. repeat split; reflexivity.
+Qed.
+
+Lemma granted_starts c s i dl :
+  cs s i = Waiting dl -> In i (granted s) -> started (snd (poll c s i)) = true.
+Proof.
+  intros H1 H2. unfold poll. cbn. rewrite H1. apply mem_In in H2. rewrite H2.
+  unfold start, poll_running. cbn. destruct (gate s i); reflexivity.
+Qed.
+
+Lemma rejected_at_deadline c s i d dd :
+  cs s i = Waiting (Some d) -> ~ In i (granted s) -> now s < d -> now s + dd = d ->
+  let s1 := advance s dd in now s1 = d /\ woken s1 i = true /\ r (snd (poll c s1 i)) = 3.
+Proof.
+  intros H1 H2 H3 H4. cbv zeta. split; [|split].
+  - unfold advance. cbn. lia.
+  - apply (timer_wakes s i d dd H1 H3). lia.
+  - apply (deadline_rejects c (advance s dd) i d); [exact H1|exact H2|unfold advance; cbn; lia].
+Qed.
+
+(* a waiter that is not granted a permit is not rejected before its deadline *)
+Lemma waits_until_deadline c s i d :
+  cs s i = Waiting (Some d) -> ~ In i (granted s) -> now s < d ->
+  r (snd (poll c s i)) = 0 /\ started (snd (poll c s i)) = false.
+Proof.
+  intros H1 H2 H3. unfold poll. cbn. rewrite H1. apply mem_false in H2. rewrite H2.
+  assert (H : d <=? now s = false) by (apply Z.leb_gt; exact H3). rewrite H. split; reflexivity.
+Qed.
+
+Lemma granted_is_woken c evs :
+  Forall (fun s => forall i, In i (granted s) -> woken s i = true /\ is_waiting (cs s i))
+         (states (step_st c) (init c) evs).
+Proof.
+  eapply Forall_impl; [|apply reach_Inv2]. intros s [[_ HC] [HW _]] i Hi. split; [apply HW; exact Hi|].
+  apply (HC i). right. exact Hi.
+Qed.
+
+(* who has entered the inner service: exactly the callers whose inner call was started --
+   never a caller that is still Created or waiting; every running caller has *)
+Lemma entered_iff_admitted c evs :
+  Forall (fun s => forall j,
+            (cs s j = Running -> entered s j = true /\ In j (running s)) /\
+            (entered s j = true -> cs s j = Running \/ cs s j = Done \/ cs s j = Dropped) /\
+            (In j (running s) -> cs s j = Running))
+         (states (step_st c) (init c) evs).
+Proof.
+  eapply Forall_impl; [|apply reach_Inv2]. intros s [[_ HC] [_ HE]] j.
+  destruct (HC j) as [_ Hr He _ _]. repeat split.
+  - apply HE. assumption.
+  - apply Hr. assumption.
+  - intros H. destruct (cs s j) as [|dl| | |] eqn:E; try tauto.
+    + rewrite He in H by (left; reflexivity). discriminate.
+    + rewrite He in H by (right; eexists; reflexivity). discriminate.
+  - apply Hr.
+Qed.
+
+(* ---------- C07 clause 1: full capacity again ---------- *)
+Lemma length_remove_id_le i l : (length (remove_id i l) <= length l)%nat.
+Proof.
+  unfold remove_id. induction l as [|a t IH]; cbn; [lia|]. destruct (negb (Nat.eqb a i)); cbn; lia.
+Qed.
+
+Lemma burst_step c s i :
+  Inv c s -> queue s = [] -> granted s = [] -> cs s i = Created -> (length (running s) < cap c)%nat ->
+  let s' := fst (poll c s i) in
+  started (snd (poll c s i)) = true /\ queue s' = [] /\ granted s' = [] /\
+  (length (running s') <= S (length (running s)))%nat /\
+  (forall j, j <> i -> cs s' j = cs s j).
+Proof.
+  intros [[Hc _ _ _ _ _] _] Hq Hg Hcr Hlt. rewrite Hg in Hc. cbn in Hc.
+  unfold poll. cbn. rewrite Hcr. destruct (free s) as [|f] eqn:Ef; [lia|].
+  unfold start, poll_running. cbn. destruct (gate s i); cbn.
+  - unfold release. cbn. rewrite Hq. cbn. repeat split; try assumption.
+    + rewrite remove_id_cons. rewrite Nat.eqb_refl. pose proof (length_remove_id_le i (running s)). lia.
+    + intros j Hj. rewrite !upd_other by exact Hj. reflexivity.
+  - repeat split; try assumption; try lia. intros j Hj. rewrite !upd_other by exact Hj. reflexivity.
+Qed.
+
+(* spare capacity is usable: fresh callers polled back to back while nobody waits all start,
+   as long as they fit *)
+Lemma burst c l : forall s,
+  Inv c s -> queue s = [] -> granted s = [] -> NoDup l ->
+  (forall i, In i l -> cs s i = Created) -> (length l + length (running s) <= cap c)%nat ->
+  Forall (fun o => started o = true) (run_obs c s (map Poll l)).
+Proof.
+  induction l as [|i t IH]; intros s HI Hq Hg Hnd Hcr Hlen; cbn [map run_obs]; [constructor|].
+  inversion Hnd as [|? ? Hni Hndt]; subst.
+  assert (Hci : cs s i = Created) by (apply Hcr; left; reflexivity).
+  cbn [length] in Hlen.
+  assert (Hlt : (length (running s) < cap c)%nat) by lia.
+  destruct (burst_step c s i HI Hq Hg Hci Hlt) as [H1 [H2 [H3 [H4 H5]]]].
+  constructor; [exact H1|]. unfold step_st. cbn [step fst]. apply IH; try assumption.
+  - apply poll_inv. exact HI.
+  - intros j Hj. rewrite H5; [apply Hcr; right; exact Hj|]. intros ->. contradiction.
+  - lia.
+Qed.
+
+Lemma idle_lists c s : Inv c s -> idle s -> queue s = [] /\ granted s = [] /\ running s = [].
+Proof.
+  intros [HG HC] Hidle. repeat split.
+  - destruct (queue s) as [|x t] eqn:Eq; [reflexivity|]. exfalso.
+    destruct (HC x) as [Hw _ _ _ _]. apply (proj2 (Hidle x)). apply Hw. left. rewrite Eq. left. reflexivity.
+  - destruct (granted s) as [|x t] eqn:Eg; [reflexivity|]. exfalso.
+    destruct (HC x) as [Hw _ _ _ _]. apply (proj2 (Hidle x)). apply Hw. right. rewrite Eg. left. reflexivity.
+  - destruct (running s) as [|x t] eqn:Er; [reflexivity|]. exfalso.
+    destruct (HC x) as [_ Hrx _ _ _]. apply (proj1 (Hidle x)). apply Hrx. rewrite Er. left. reflexivity.
+Qed.
+
+(* with cap >= 1 "nothing in flight and nobody granted" already implies nobody is queued *)
+Lemma full_capacity_again c evs l :
+  let s := fold_left (step_st c) evs (init c) in
+  idle s -> NoDup l -> length l = cap c -> (forall i, In i l -> cs s i = Created) ->
+  Forall (fun o => started o = true) (run_obs c s (map Poll l)).
+Proof.
+  intros s Hidle Hnd Hlen Hcr.
+  assert (HI : Inv c s) by (apply fold_left_inv; [apply inv_init|intros; apply step_inv; assumption]).
+  destruct (idle_lists c s HI Hidle) as [Hq [Hg Hr]].
+  apply (burst c l s HI Hq Hg Hnd Hcr). rewrite Hr. cbn. lia.
+Qed.
+
+(* mid-history form: k callers still run, the remaining cap - k slots admit fresh callers *)
+Lemma spare_capacity_admits c evs l :
+  let s := fold_left (step_st c) evs (init c) in
+  queue s = [] -> granted s = [] -> NoDup l -> (forall i, In i l -> cs s i = Created) ->
+  (length l + inflight s <= cap c)%nat ->
+  Forall (fun o => started o = true) (run_obs c s (map Poll l)).
+Proof.
+  intros s Hq Hg Hnd Hcr Hlen.
+  assert (HI : Inv c s) by (apply fold_left_inv; [apply inv_init|intros; apply step_inv; assumption]).
+  apply (burst c l s HI Hq Hg Hnd Hcr). exact Hlen.
+Qed.
+
+(* ---------- the capacity probe that run_script appends ---------- *)
+Definition ev_id (e : ev) : option nat :=
+  match e with Poll i | Drop i | Complete i _ => Some i | Advance _ => None end.
+
+Lemma step_cs_other c s e j : ev_id e <> Some j -> cs (step_st c s e) j = cs s j.
+Proof.
+  intros Hid. unfold step_st, step. destruct e as [i|i|d|i o]; cbn [fst]; cbn in Hid.
+  - assert (Hne : j <> i) by congruence.
+    assert (Hu : forall A (f : nat -> A) v, upd f i v j = f j) by (intros; apply upd_other; exact Hne).
+    unfold poll. cbn. destruct (cs s i) as [|dl| | |].
+    + destruct (free s).
+      * destruct (max_wait c) as [w|]; [destruct (w <=? 0)|]; cbn; rewrite ?Hu; reflexivity.
+      * unfold start, poll_running. cbn. destruct (gate s i); cbn; rewrite ?release_cs; cbn; rewrite ?Hu; reflexivity.
+    + destruct (mem i (granted s)).
+      * unfold start, poll_running. cbn. destruct (gate s i); cbn; rewrite ?release_cs; cbn; rewrite ?Hu; reflexivity.
+      * destruct dl as [d|]; [destruct (d <=? now s)|]; cbn; rewrite ?Hu; reflexivity.
+    + unfold poll_running. cbn. destruct (gate s i); cbn; rewrite ?release_cs; cbn; rewrite ?Hu; reflexivity.
+    + reflexivity.
+    + reflexivity.
+  - assert (Hne : j <> i) by congruence.
+    assert (Hu : forall A (f : nat -> A) v, upd f i v j = f j) by (intros; apply upd_other; exact Hne).
+    unfold drop. cbn. destruct (cs s i) as [|dl| | |]; cbn; rewrite ?Hu; try reflexivity.
+    + destruct (mem i (granted s)); rewrite ?release_cs; cbn; rewrite ?Hu; reflexivity.
+    + rewrite ?release_cs. cbn. rewrite ?Hu. reflexivity.
+  - reflexivity.
+  - unfold complete. destruct (gate s i); reflexivity.
+Qed.
+
+Definition final (x : cst) : Prop := x = Done \/ x = Dropped.
+
+Lemma drop_final s i : final (cs (drop s i) i).
+Proof.
+  unfold drop, final. cbn. destruct (cs s i) as [|dl| | |] eqn:E; cbn.
+  - right. apply upd_same.
+  - destruct (mem i (granted s)); rewrite ?release_cs; cbn; right; apply upd_same.
+  - rewrite release_cs. cbn. right. apply upd_same.
+  - left. exact E.
+  - right. exact E.
+Qed.
+
+Lemma after_drops c l : forall s,
+  (forall i, In i l -> final (cs (fold_left (step_st c) (map Drop l) s) i)) /\
+  (forall j, ~ In j l -> cs (fold_left (step_st c) (map Drop l) s) j = cs s j).
+Proof.
+  induction l as [|a t IH]; intros s; cbn [map fold_left].
+  - split; [intros i []|reflexivity].
+  - destruct (IH (step_st c s (Drop a))) as [I1 I2]. split.
+    + intros i Hi. destruct (in_dec Nat.eq_dec i t) as [Hit|Hnt]; [apply I1; exact Hit|].
+      destruct Hi as [->|Hi]; [|contradiction]. rewrite I2 by exact Hnt.
+      unfold step_st. cbn [step fst]. apply drop_final.
+    + intros j Hj. rewrite I2 by (intros H; apply Hj; right; exact H).
+      apply step_cs_other. cbn. intros H. apply Hj. left. congruence.
+Qed.
+
+Definition id_lt (n : nat) (e : ev) : Prop :=
+  match ev_id e with Some i => (i < n)%nat | None => True end.
+
+Lemma evs_of_ids n l : Forall (id_lt n) (evs_of n l).
+Proof.
+  induction l as [|[[op a] b] t IH]; cbn [evs_of]; [constructor|].
+  destruct (ev_of n (op, a, b)) as [e|] eqn:E; [|exact IH]. constructor; [|exact IH].
+  unfold ev_of in E. destruct (op =? 3); [inversion E; exact I|].
+  destruct ((0 <=? a) && (a <? Z.of_nat n)) eqn:Hr; cbn [negb] in E; [|discriminate].
+  apply andb_true_iff in Hr. destruct Hr as [H0 H1]. apply Z.leb_le in H0. apply Z.ltb_lt in H1.
+  assert (Hlt : (Z.to_nat a < n)%nat) by lia.
+  destruct (op =? 1); [inversion E; exact Hlt|].
+  destruct (op =? 2); [inversion E; exact Hlt|].
+  destruct (op =? 4); [inversion E; exact Hlt|].
+  destruct (op =? 5); [inversion E; exact I|discriminate].
+Qed.
+
+Lemma created_untouched c n evs : forall s, Forall (id_lt n) evs ->
+  forall j, (n <= j)%nat -> cs (fold_left (step_st c) evs s) j = cs s j.
+Proof.
+  induction evs as [|e t IH]; intros s H j Hj; cbn [fold_left]; [reflexivity|].
+  inversion H as [|? ? He Ht]; subst. rewrite IH by assumption.
+  apply step_cs_other. unfold id_lt in He. destruct (ev_id e) as [i|]; [|discriminate].
+  intros Hi. inversion Hi. lia.
+Qed.
+
+Lemma run_evs_app c total a : forall b s,
+  run_evs c total s (a ++ b) = run_evs c total s a ++ run_evs c total (fold_left (step_st c) a s) b.
+Proof.
+  induction a as [|e t IH]; intros b s; cbn [app run_evs fold_left]; [reflexivity|].
+  unfold step_st at 2. destruct (step c s e) as [s' o]. cbn [fst]. rewrite IH. reflexivity.
+Qed.
+
+Lemma run_evs_length c total a : forall s, length (run_evs c total s a) = (6 * length a)%nat.
+Proof.
+  induction a as [|e t IH]; intros s; cbn [run_evs length]; [reflexivity|].
+  destruct (step c s e) as [s' o]. cbn [app length]. rewrite IH. lia.
+Qed.
+
+Lemma col6_started c total evs : forall s,
+  col6 1 (run_evs c total s evs) = map (fun o => b2z (started o)) (run_obs c s evs).
+Proof.
+  induction evs as [|e t IH]; intros s; cbn [run_evs run_obs map]; [reflexivity|].
+  unfold step_st. destruct (step c s e) as [s' o]. cbn [app col6 nth fst snd]. rewrite IH. reflexivity.
+Qed.
+
+Lemma run_obs_app c a : forall b s,
+  run_obs c s (a ++ b) = run_obs c s a ++ run_obs c (fold_left (step_st c) a s) b.
+Proof.
+  induction a as [|e t IH]; intros b s; cbn [app run_obs fold_left]; [reflexivity|].
+  rewrite IH. reflexivity.
+Qed.
+
+Lemma run_obs_length c a : forall s, length (run_obs c s a) = length a.
+Proof. induction a as [|e t IH]; intros s; cbn [run_obs length]; [reflexivity|]. rewrite IH. reflexivity. Qed.
+
+Lemma skipn_app_exact {A} (l1 l2 : list A) n : length l1 = n -> skipn n (l1 ++ l2) = l2.
+Proof.
+  intros <-. rewrite skipn_app, skipn_all, Nat.sub_diag. reflexivity.
+Qed.
+
+Lemma firstn_app_exact {A} (l1 l2 : list A) n : length l1 = n -> firstn n (l1 ++ l2) = l1.
+Proof.
+  intros <-. rewrite firstn_app, firstn_all, Nat.sub_diag. cbn. apply app_nil_r.
+Qed.
+
+Lemma all_started_ones (l : list obs) :
+  Forall (fun o => started o = true) l -> map (fun o => b2z (started o)) l = repeat 1 (length l).
+Proof.
+  induction 1 as [|o t Ho Ht IH]; cbn; [reflexivity|]. rewrite Ho, IH. reflexivity.
+Qed.
+
+(* the state in which run_script starts its probe: after ANY scripted history and the drop of
+   every scripted caller nothing waits or runs, and the probe callers are fresh *)
+Lemma probe_state c n evs :
+  Forall (id_lt n) evs ->
+  let s := fold_left (step_st c) (evs ++ map Drop (seq 0 n)) (init c) in
+  Inv c s /\ idle s /\ forall j, (n <= j)%nat -> cs s j = Created.
+Proof.
+  intros Hids s.
+  assert (HI : Inv c s) by (apply fold_left_inv; [apply inv_init|intros; apply step_inv; assumption]).
+  subst s. rewrite fold_left_app in *.
+  set (s1 := fold_left (step_st c) evs (init c)) in *.
+  destruct (after_drops c (seq 0 n) s1) as [D1 D2].
+  assert (Hfresh : forall j, (n <= j)%nat -> cs (fold_left (step_st c) (map Drop (seq 0 n)) s1) j = Created).
+  { intros j Hj. rewrite D2 by (rewrite in_seq; lia). unfold s1.
+    rewrite (created_untouched c n evs (init c) Hids j Hj). reflexivity. }
+  split; [exact HI|]. split; [|exact Hfresh].
+  intros i. destruct (le_lt_dec n i) as [Hge|Hlt].
+  - rewrite (Hfresh i Hge). split; [discriminate|intros [dl H]; discriminate].
+  - assert (Hf : final (cs (fold_left (step_st c) (map Drop (seq 0 n)) s1) i))
+      by (apply D1; rewrite in_seq; lia).
+    destruct Hf as [Hf|Hf]; rewrite Hf; split; try discriminate; intros [dl H]; discriminate.
+Qed.
+
+(* C07 clause 1 on the trace bin/check compares: for EVERY script, the rows of the first cap
+   probe callers (after the scripted history, with every scripted caller dropped) all report a
+   started inner call *)
+Lemma probe_admits_cap sc :
+  let c := cfg_of sc in
+  let k := (length (script_evs sc) + callers_of sc)%nat in
+  firstn (cap c) (col6 1 (skipn (6 * k) (run_script sc))) = repeat 1 (cap c).
+Proof.
+  cbv zeta. unfold run_script, probe_evs.
+  set (c := cfg_of sc). set (n := callers_of sc). set (evs := script_evs sc).
+  set (total := Nat.min _ _).
+  rewrite app_assoc, run_evs_app.
+  rewrite skipn_app_exact
+    by (rewrite run_evs_length, app_length, map_length, seq_length; reflexivity).
+  rewrite col6_started.
+  rewrite seq_app, map_app, run_obs_app, map_app.
+  destruct (probe_state c n evs (evs_of_ids n _)) as [HI [Hidle Hfresh]].
+  set (s := fold_left (step_st c) (evs ++ map Drop (seq 0 n)) (init c)) in *.
+  destruct (idle_lists c s HI Hidle) as [Hq [Hg Hr]].
+  assert (HB : Forall (fun o => started o = true) (run_obs c s (map Poll (seq n (cap c))))).
+  { apply burst; try assumption.
+    - apply seq_NoDup.
+    - intros i Hi. apply in_seq in Hi. apply Hfresh. lia.
+    - rewrite seq_length, Hr. cbn. lia. }
+  rewrite firstn_app_exact by (rewrite map_length, run_obs_length, map_length, seq_length; reflexivity).
+  rewrite (all_started_ones _ HB), run_obs_length, map_length, seq_length. reflexivity.
+Qed.
+
+(* ---------- non-vacuity ---------- *)
+(* cap 2: two callers inside (inflight = cap), a third queued; a running caller is dropped, the
+   waiter is handed the permit (granted, woken, not yet polled) -- every hypothesis of
+   granted_starts / granted_is_woken / conservation with a non-empty granted list is reachable *)
+Example ex_full_then_grant :
+  let c := {| cap := 2%nat; max_wait := Some 10 |} in
+  let s := fold_left (step_st c) [Poll 0; Poll 1; Poll 2]%nat (init c) in
+  let s' := step_st c s (Drop 0%nat) in
+  inflight s = 2%nat /\ queue s = [2%nat] /\ cs s 2%nat = Waiting (Some 10) /\
+  granted s' = [2%nat] /\ woken s' 2%nat = true /\ inflight s' = 1%nat /\
+  started (snd (poll c s' 2%nat)) = true /\ seen (snd (poll c s' 2%nat)) = 2 /\
+  inside (history c [Poll 0; Poll 1; Poll 2; Drop 0; Poll 2]%nat) = [2; 1]%nat.
+Proof. vm_compute. repeat split; reflexivity. Qed.
+
+(* idle after a history with an ok, an inner error, a panic, a wait timeout and cancellations
+   of a waiting and of a running caller: the hypotheses of full_capacity_again are met *)
+Example ex_idle_after_history :
+  let c := {| cap := 2%nat; max_wait := Some 5 |} in
+  let evs := [Poll 0; Poll 1; Poll 2; Poll 3; Drop 3; Advance 5; Poll 2; Complete 0 OOk; Poll 0;
+              Poll 4; Complete 4 OErr; Poll 4; Poll 5; Complete 5 OPanic; Poll 5; Drop 1]%nat in
+  let s := fold_left (step_st c) evs (init c) in
+  idle s /\ free s = 2%nat /\ cs s 6%nat = Created /\ cs s 7%nat = Created /\
+  map r (run_obs c (init c) evs) = [0; 0; 0; 0; -1; -1; 3; -1; 1; 0; -1; 2; 0; -1; 5; -1].
+Proof.
+  cbv zeta. split; [|vm_compute; repeat split; reflexivity].
+  intros i. do 6 (destruct i as [|i]; [vm_compute; split; [discriminate|intros [dl H]; discriminate]|]).
+  vm_compute; split; [discriminate|intros [dl H]; discriminate].
+Qed.
+
+(* zero wait (reject_when_full): hypotheses of zero_wait_rejects are reachable *)
+Example ex_zero_wait :
+  let c := {| cap := 1%nat; max_wait := Some 0 |} in
+  let s := fold_left (step_st c) [Poll 0%nat] (init c) in
+  cs s 1%nat = Created /\ free s = 0%nat /\ r (snd (poll c s 1%nat)) = 3.
+Proof. vm_compute. repeat split; reflexivity. Qed.
+
+(* a queued waiter strictly before its deadline: hypotheses of rejected_at_deadline /
+   waits_until_deadline *)
+Example ex_before_deadline :
+  let c := {| cap := 1%nat; max_wait := Some 10 |} in
+  let s := fold_left (step_st c) [Poll 0%nat; Advance 3; Poll 1%nat; Advance 4] (init c) in
+  cs s 1%nat = Waiting (Some 13) /\ ~ In 1%nat (granted s) /\ now s = 7 /\
+  r (snd (poll c s 1%nat)) = 0 /\ r (snd (poll c (advance s 6) 1%nat)) = 3.
+Proof. vm_compute. repeat split; try reflexivity. intros []; discriminate. Qed.
+
+(* spare capacity mid-history: one caller runs, cap - 1 fresh callers are admitted *)
+Example ex_spare :
+  let c := {| cap := 3%nat; max_wait := None |} in
+  let s := fold_left (step_st c) [Poll 0%nat] (init c) in
+  queue s = [] /\ granted s = [] /\ inflight s = 1%nat /\
+  map started (run_obs c s (map Poll [1; 2]%nat)) = [true; true].
+Proof. vm_compute. repeat split; reflexivity. Qed.
+
+(* a whole script through run_script: cap 1, max_wait 10 ms, 2 callers; the second caller queues,
+   is rejected at its deadline; then the probe: the scripted callers are dropped, the first
+   probe caller is admitted, the second is not *)
+Example ex_trace :
+  run_script [1; 10; 2;  1; 0; 0;  1; 1; 0;  3; 10; 0;  1; 1; 0] =
+    [0; 1; 1; 0; 1; 1;   0; 0; 0; 0; 1; 0;   -1; 0; 0; 2; 1; 0;   3; 0; 0; 0; 1; 0;
+     -1; 0; 0; 0; 0; 0;  -1; 0; 0; 0; 0; 0;
+     0; 1; 1; 0; 1; 3;   0; 0; 0; 0; 1; 0].
+Proof. vm_compute. reflexivity. Qed.
+
